@@ -56,6 +56,12 @@ func FeedLog(ctx context.Context, l config.Log, w feeder.Witness, c *http.Client
 		if from.Size == 0 {
 			return [][]byte{}, nil
 		}
+		// tlog works with int64 tree sizes, and its tile arithmetic overflows for trees of
+		// 2^62 leaves or more: ProveTree then never returns (and ignores the context), even
+		// for a checkpoint correctly signed by the log. Refuse such sizes up front.
+		if to.Size >= 1<<62 {
+			return nil, fmt.Errorf("tree size %d is too large", to.Size)
+		}
 		var h [32]byte
 		copy(h[:], to.Hash)
 		tree := tlog.Tree{
